@@ -145,7 +145,7 @@ theorem shallowIgnore_core (ign : List Nat) (A B : Attrs) (b : Tree) (hb : ∀ k
 theorem filter_const_true {α} (l : List α) : l.filter (fun _ => true) = l := by
   induction l with
   | nil => rfl
-  | cons x xs ih => simp [List.filter_cons, ih]
+  | cons x xs ih => simp [ih]
 
 theorem cvalueIgnoring_nil (v : Value) (ks : List Tree) : cvalueIgnoring [] v ks = cvalue v ks := by
   cases v <;> simp [cvalueIgnoring, cvalue, filter_const_true]
